@@ -4,7 +4,7 @@
 From V.lib Require Import Base.
 From V.c13 Require Import C13Spec C13Model.
 From V.c15 Require Import C15Model C15Spec C15HevcModel C15HevcSpec C15HevcConfModel C15HevcConfSpec
-  C15HevcConfProofs C15HevcConfExamples.
+  C15HevcConfProofs C15HevcConfEncProofs C15HevcConfExamples.
 From V.c16 Require Import C16ConfRecModel.
 
 (* CreateHEVCDecConfRec: the record carries profile space / tier / idc, the 32 compatibility flags, the
@@ -27,6 +27,26 @@ Example C15_hevc_confrec_create_hyp :
         0; 33; 1; 30; 66; 1; 1; 34; 96; 0; 0; 3; 0; 176; 0; 0; 16; 0; 0; 93; 160; 3; 192; 128; 17; 7;
         202; 217; 101; 121; 36; 73; 172; 128;
         1; 34; 2; 4; 68; 1; 193; 114; 3; 68; 1; 0]%Z.
+Proof. vm_compute. repeat split; reflexivity. Qed.
+
+(* DecConfRec.Encode / Size: Go's byte arithmetic writes the bit fields of the syntax table of
+   14496-15 8.3.3.1.2 (spec_hvcc), and Size is the number of bytes written.  (The nalus_fit hypotheses
+   are not used by the proof: u(16) of a count and Go's uint16() truncate alike.) *)
+Theorem C15_hevc_confrec_encode : forall v vps sps pps vc sc pc inc,
+  hsps_valid v = true -> hconf_depths_fit v = true ->
+  nalus_fit vps = true -> nalus_fit sps = true -> nalus_fit pps = true ->
+  hconf_encode (expected_hconf v vps sps pps vc sc pc inc) = spec_hvcc v vps sps pps vc sc pc inc
+  /\ hconf_size (expected_hconf v vps sps pps vc sc pc inc) = lenN (spec_hvcc v vps sps pps vc sc pc inc).
+Proof. exact hevc_confrec_encode. Qed.
+Print Assumptions C15_hevc_confrec_encode.
+
+Example C15_hevc_confrec_encode_hyp :
+  hsps_valid ex_hconf_sps = true /\ hconf_depths_fit ex_hconf_sps = true
+  /\ nalus_fit ex_hconf_vps = true /\ nalus_fit [hnalu_sps ex_hconf_sps] = true /\ nalus_fit ex_hconf_pps = true
+  /\ firstn 26 (spec_hvcc ex_hconf_sps ex_hconf_vps [hnalu_sps ex_hconf_sps] ex_hconf_pps true false true true)
+     = [1; 34; 96; 0; 0; 0; 176; 0; 0; 16; 0; 0; 93; 240; 0; 252; 253; 250; 250; 0; 0; 3; 3;
+        160; 0; 1]
+  /\ lenN (spec_hvcc ex_hconf_sps ex_hconf_vps [hnalu_sps ex_hconf_sps] ex_hconf_pps true false true true) = 83.
 Proof. vm_compute. repeat split; reflexivity. Qed.
 
 (* hevc.CodecString: sample entry, profile space letter and profile idc, the compatibility flags in
